@@ -374,6 +374,18 @@ def s_tm_wf(ev, Tm):
                                                                    Or(t3[4](v) == lit('L'), t3[4](v) == lit('R')))))))
 
 
+@spec('pda_wf')
+def s_pda_wf(ev, P):
+    """the class invariant established by PDA._check_validity (verified against that code: contract PDA._check_validity)"""
+    g = lambda f: rec_get(P, f)
+    Q, Sg, Gm, dl, eps = g('Q').z, g('Sigma').z, g('Gamma').z, g('delta'), g('epsilon').z
+    dom, val = map_dom(dl), map_val(dl); t2 = parts(TUP(ATOM, ATOM))
+    x, y, u, q, v = [fresh_z(n_, Atom) for n_ in 'xyuqv']; k = mkKey3(x, y, u)
+    return SV(BOOL, And(Select(Q, g('q0').z), Not(Select(Sg, eps)), Not(Select(Gm, eps)), ForAll([x], Implies(Select(g('F').z, x), Select(Q, x))),
+                        ForAll([x, y, u], Implies(Select(dom, k), And(Select(Q, x), Or(Select(Sg, y), y == eps), Or(Select(Gm, u), u == eps)))),
+                        ForAll([x, y, u, q, v], Implies(And(Select(dom, k), Select(Select(val, k), t2[1](q, v))), And(Select(Q, q), Or(Select(Gm, v), v == eps))))))
+
+
 @spec('tm_verdict')
 def s_tm_verdict(ev, Tm, w, k):
     """three-valued verdict after at most k steps (the run is sticky at halting configurations)"""
